@@ -5,6 +5,7 @@ import (
 	"net"
 	"os"
 	"strings"
+	"sync"
 	"syscall"
 	"time"
 )
@@ -20,6 +21,8 @@ type Sockets struct {
 	MastPath  string
 	admin     net.Listener
 	master    net.Listener
+	mu        sync.Mutex
+	conns     map[*net.UnixConn]int // admin connections and the generation that accepted them
 }
 
 // Serve starts both listeners.
@@ -35,7 +38,13 @@ func Serve(f *Fake, adminPath, masterPath string) (*Sockets, error) {
 		a.Close()
 		return nil, err
 	}
-	s := &Sockets{Fake: f, AdminPath: adminPath, MastPath: masterPath, admin: a, master: m}
+	s := &Sockets{Fake: f, AdminPath: adminPath, MastPath: masterPath, admin: a, master: m, conns: map[*net.UnixConn]int{}}
+	f.onReload = func(oldGen int) {
+		if f.OldExits {
+			// the former process is gone: its connections with it
+			s.closeConns(oldGen)
+		}
+	}
 	go s.accept(a, false)
 	go s.accept(m, true)
 	return s, nil
@@ -45,8 +54,21 @@ func Serve(f *Fake, adminPath, masterPath string) (*Sockets, error) {
 func (s *Sockets) Close() {
 	s.admin.Close()
 	s.master.Close()
+	s.closeConns(-1)
 	_ = os.Remove(s.AdminPath)
 	_ = os.Remove(s.MastPath)
+}
+
+// closeConns closes the admin connections of generations up to gen (-1: all of them).
+func (s *Sockets) closeConns(gen int) {
+	s.mu.Lock()
+	defer s.mu.Unlock()
+	for c, g := range s.conns {
+		if gen < 0 || g <= gen {
+			c.Close()
+			delete(s.conns, c)
+		}
+	}
 }
 
 func (s *Sockets) accept(l net.Listener, master bool) {
@@ -124,6 +146,18 @@ func commandLen(text string) int {
 
 func (s *Sockets) serve(c *net.UnixConn, master bool) {
 	defer c.Close()
+	// the connection belongs to the generation that was listening when it was accepted
+	proc := s.Fake.Current()
+	if !master {
+		s.mu.Lock()
+		s.conns[c] = proc.Gen
+		s.mu.Unlock()
+		defer func() {
+			s.mu.Lock()
+			delete(s.conns, c)
+			s.mu.Unlock()
+		}()
+	}
 	interactive := false
 	for {
 		cmd, n, err := peekCommand(c)
@@ -157,7 +191,7 @@ func (s *Sockets) serve(c *net.UnixConn, master bool) {
 		case master:
 			out, closeAfter = s.masterCmd(strings.TrimSpace(bare))
 		default:
-			out = s.Fake.Exec(bare)
+			out = s.Fake.ExecOn(proc, bare)
 		}
 		if interactive {
 			if out != "" {
